@@ -269,6 +269,6 @@ def _run(ctx, replay):
     }
     vlib.write_evidence(ctx, "exploration", cov, ASSUMPTIONS, len(new))
     if rc == 0:
-        print("OK property=%s tier=%s seed=%d vectors=%d nontrivial=%d rpcs=%d violating=%d (all known) restarts=%d wall=%.0fs" % (
-            prop, tier, seed, len(results), nontrivial, len(per_rpc), len(verdict), summ["restarts"], time.time() - ctx.t0))
+        print("OK property=%s tier=%s seed=%d vectors=%d nontrivial=%d rpcs=%d violating=%d%s restarts=%d wall=%.0fs" % (
+            prop, tier, seed, len(results), nontrivial, len(per_rpc), len(verdict), " (all known findings)" if verdict else "", summ["restarts"], time.time() - ctx.t0))
     return rc
